@@ -181,7 +181,16 @@ func (u *Unit) execInstr(fr *Frame, st *State, in ssa.Instruction) {
 		base := u.get(fr, x.X)
 		if p, ok := base.(*PtrV); ok && p.Cell != nil {
 			if at, ok := p.Elem.Underlying().(*types.Array); ok {
-				fr.vals[x] = &SliceV{Cell: p.Cell, N: int(at.Len()), T: IntLit(int64(-200000 - p.Cell.ID)), Typ: x.Type()}
+				sv := &SliceV{Cell: p.Cell, N: int(at.Len()), T: IntLit(int64(-200000 - p.Cell.ID)), Typ: x.Type()}
+				// the backing array of a slice literal or of a variadic argument list is complete when it is sliced
+				// and never written afterwards: its elements are known from here on, whatever state the value is
+				// looked at in (e.g. after the join of two returns of a helper)
+				if al, ok := x.X.(*ssa.Alloc); ok && (al.Comment == "slicelit" || al.Comment == "varargs") && sv.N <= 8 && x.Low == nil && x.High == nil {
+					if es, gs, ok := u.knownElems(st, sv); ok {
+						sv.Elems, sv.Guards, sv.Known = es, gs, true
+					}
+				}
+				fr.vals[x] = sv
 				return
 			}
 		}
